@@ -305,6 +305,8 @@ func c01Sequence(parts []*ref.Program, mask []bool) core.Verdict {
 }
 
 func checkC01(c *core.Ctx) {
+	defer sweepC01(c)
+	defer soakC01(c)
 	if c.Shard == 0 && c.Only == "" {
 		if f := refSelftest(); f > 0 {
 			c.Broken("reference model selftest failed (%d)", f)
